@@ -10,5 +10,5 @@ CONSTANTS
   MaxSteps = 3
 VIEW View
 CONSTRAINT Bound
-INVARIANTS EmitPath Struct CacheOK Refines IssuedOnce PanicAgrees CacheSelects
+INVARIANTS EmitPath Struct Flags CacheOK Refines IssuedOnce PanicAgrees CacheSelects
 CHECK_DEADLOCK FALSE
